@@ -2,6 +2,7 @@ package kd
 
 import (
 	"fmt"
+	"golang.org/x/sys/cpu"
 	"math"
 	"math/rand"
 	"reflect"
@@ -31,6 +32,11 @@ func Impl() (short, full string) {
 		return "asm", full
 	case strings.Contains(full, "PureGo"):
 		return "pure", full
+	}
+	// (a function of another name on a CPU with AVX2 and FMA: the dispatcher chose something that is not the
+	// pure Go loop, e.g. a wrapper around the kernels; it is judged as the vectorised implementation)
+	if cpu.X86.HasAVX2 && cpu.X86.HasFMA {
+		return "asm", full
 	}
 	return "unknown", full
 }
